@@ -2,11 +2,11 @@ INIT Init
 NEXT Next
 CHECK_DEADLOCK FALSE
 CONSTANTS
-  Keys <- KeysBig
-  Alias <- AliasBig
-  IntVal <- IntValBig
+  Keys <- KeysExt
+  Alias <- AliasExt
+  IntVal <- IntValExt
   Travs <- AllTravs
-  LenEnabled = TRUE
-  MaxSteps = 100
+  LenEnabled = FALSE
+  MaxSteps = 30
   ViewHist = 0
   EmitAll = FALSE
